@@ -70,6 +70,115 @@ MUTANTS = {
                                          "numSegments = max(1, int(math.ceil(arcLength / MM_PER_ARC_SEGMENT / 2)))")]),
     "g90-does-not-touch-y": (["C03", "C08"], [(PKG + "Position.py", """        self.Y_AXIS.setAbsoluteMode(absolute)
 """, """""")]),
+    "resetstate-keeps-pending": (["C10", "C06"], [(S, """        self.pendingCommands = OrderedDict()
+
+    def getRegion""", """        self.pendingCommands = getattr(self, "pendingCommands", OrderedDict())
+
+    def getRegion""")]),
+    "resetstate-keeps-lastretraction": (["C10"], [(S, """        self.lastRetraction = None
+        self.lastPosition = None
+        self.pendingCommands""", """        self.lastRetraction = getattr(self, "lastRetraction", None)
+        self.lastPosition = None
+        self.pendingCommands""")]),
+    "resetstate-keeps-exclusion-enabled": (["C10"], [(S, """        self._exclusionEnabled = True
+        self.excluding = False
+        self.excludeStartTime = None""", """        self._exclusionEnabled = getattr(self, "_exclusionEnabled", True)
+        self.excluding = False
+        self.excludeStartTime = None""")]),
+    "resetstate-keeps-feedunit": (["C10"], [(S, """        self.feedRateUnitMultiplier = 1
+""", """        self.feedRateUnitMultiplier = getattr(self, "feedRateUnitMultiplier", 1)
+""")]),
+    "paused-ends-job": (["C11"], [(I, """                Events.PRINT_CANCELLED,
+                Events.ERROR
+        )):""", """                Events.PRINT_CANCELLED,
+                Events.PRINT_PAUSED,
+                Events.ERROR
+        )):""")]),
+    "cancelling-does-not-end-job": (["C11"], [(I, """                Events.PRINT_CANCELLING,
+""", """""")]),
+    "inactive-still-tracks": (["C11"], [(I, """        if (gcode and self.isActivePrintJob):
+            return self.gcodeHandlers.handleGcode(cmd, gcode, subcode)
+""", """        if (gcode):
+            result = self.gcodeHandlers.handleGcode(cmd, gcode, subcode)
+            if (self.isActivePrintJob):
+                return result
+""")]),
+    "clear-setting-ignored-on-error": (["C11"], [(I, """            if (self.clearRegionsAfterPrintFinishes):
+                self.state.resetState(True)""", """            if (self.clearRegionsAfterPrintFinishes and event != Events.ERROR):
+                self.state.resetState(True)""")]),
+    "delete-allowed-while-printing": (["C12"], [(I, """        if (not self.mayShrinkRegionsWhilePrinting and self.isActivePrintJob):
+            return "Cannot delete region while printing", 409
+""", """""")]),
+    "mustcontain-ignored": (["C12"], [(S, "if (mustContainOldRegion and not newRegion.containsRegion(region)):",
+                                        "if (False and not newRegion.containsRegion(region)):")]),
+    "circle-contains-rect-two-corners": (["C17", "C12"], [(CR, """                self.containsPoint(otherRegion.x1, otherRegion.y1) and
+                self.containsPoint(otherRegion.x2, otherRegion.y1) and
+                self.containsPoint(otherRegion.x2, otherRegion.y2) and""", """                self.containsPoint(otherRegion.x1, otherRegion.y1) and
+                self.containsPoint(otherRegion.x2, otherRegion.y2) and""")]),
+    "rect-contains-circle-ignores-radius-y": (["C17", "C12"], [(RR, "(otherRegion.cy + otherRegion.r <= self.y2)", "(otherRegion.cy <= self.y2)")]),
+    "circle-contains-circle-ignores-distance": (["C17", "C12"], [(CR, "dist = math.hypot(self.cx - otherRegion.cx, self.cy - otherRegion.cy) + otherRegion.r",
+                                                              "dist = otherRegion.r")]),
+    "no-notification-on-update": (["C13"], [(I, """                not self.mayShrinkRegionsWhilePrinting and self.isActivePrintJob
+            )
+            self._notifyExcludedRegionsChanged()""", """                not self.mayShrinkRegionsWhilePrinting and self.isActivePrintJob
+            )""")]),
+    "duplicate-id-accepted": (["C13"], [(S, """        if (self.getRegion(region.id) is None):
+            self._logger.info("New exclude region added: %s", region)""", """        if (True):
+            self._logger.info("New exclude region added: %s", region)""")]),
+    "anonymous-may-delete": (["C13"], [(I, """        if current_user.is_anonymous():
+            return "Insufficient rights", 403
+""", """        if current_user.is_anonymous() and command != "deleteExcludeRegion":
+            return "Insufficient rights", 403
+""")]),
+    "update-appends-instead-of-replacing": (["C13"], [(S, """                self.excludedRegions[index] = newRegion
+                return""", """                del self.excludedRegions[index]
+                self.excludedRegions.append(newRegion)
+                return""")]),
+    "notify-before-clear": (["C13"], [(I, """            if (self.clearRegionsAfterPrintFinishes):
+                self.state.resetState(True)
+                self._notifyExcludedRegionsChanged()""", """            if (self.clearRegionsAfterPrintFinishes):
+                self._notifyExcludedRegionsChanged()
+                self.state.resetState(True)""")]),
+    "pending-not-cleared": (["C06"], [(S, """                    returnCommands.append(cmdArgs)
+            self.pendingCommands.clear()
+""", """                    returnCommands.append(cmdArgs)
+""")]),
+    "last-keeps-first-position": (["C06"], [(S, """            self.pendingCommands.pop(gcode, None)
+            self.pendingCommands[gcode] = cmd""", """            self.pendingCommands[gcode] = cmd""")]),
+    "first-behaves-like-last": (["C06"], [(S, """            if (not (gcode in self.pendingCommands)):
+                self.pendingCommands[gcode] = cmd""", """            if (True):
+                self.pendingCommands[gcode] = cmd""")]),
+    "exit-script-before-deferred": (["C06"], [(S, """        returnCommands = []
+
+        if (self.pendingCommands):
+            for gcode, cmdArgs in self.pendingCommands.items():""", """        returnCommands = []
+        if (self.exitingExcludedRegionGcode is not None):
+            returnCommands.extend(self.exitingExcludedRegionGcode)
+
+        if (self.pendingCommands):
+            for gcode, cmdArgs in self.pendingCommands.items():"""), (S, """            self.pendingCommands.clear()
+
+        if (self.exitingExcludedRegionGcode is not None):
+            returnCommands.extend(self.exitingExcludedRegionGcode)
+
+        return returnCommands""", """            self.pendingCommands.clear()
+
+        return returnCommands""")]),
+    "enter-script-on-every-excluded-move": (["C06"], [(S, """        if (not self.excluding):
+            returnCommands = self.enterExcludedRegion(cmd)
+        else:
+            returnCommands = []
+""", """        if (not self.excluding):
+            returnCommands = self.enterExcludedRegion(cmd)
+        else:
+            returnCommands = list(self.enteringExcludedRegionGcode or [])
+""")]),
+    "script-hook-ignores-name": (["C15"], [(I, """        if (scriptType == "gcode") and (scriptName == "afterPrintDone"):""", """        if (scriptType == "gcode"):""")]),
+    "script-hook-ignores-type": (["C15"], [(I, """        if (scriptType == "gcode") and (scriptName == "afterPrintDone"):""", """        if (scriptName == "afterPrintDone"):""")]),
+    "script-hook-keeps-excluding": (["C15"], [(I, """                return (self.state.exitExcludedRegion("Print done"), None)""", """                result = (self.state.exitExcludedRegion("Print done"), None)
+                self.state.excluding = True
+                return result""")]),
+    "script-hook-ignores-active": (["C15"], [(I, """            if (self.isActivePrintJob and self.state.excluding):""", """            if (self.state.excluding):""")]),
     "g28-keeps-offset": (["C03"], [(AX, "        self.current = 0\n        self.offset = 0", "        self.current = 0")]),
 }
 
